@@ -166,6 +166,26 @@ func runC12(c c12Case) error {
 	if err := c12CheckRenderings(h, c.Bounds, want, fmt.Sprintf("%d results added", len(c.Lat))); err != nil {
 		return err
 	}
+	// a rendering that was handed out stays what it was: snapshots rendered while the histogram grows
+	// (what periodic reporting keeps) still show the counts of their moment after later renderings
+	hs := &vegeta.Histogram{Buckets: bk}
+	var snaps [][]byte
+	var copies []string
+	for i, l := range c.Lat {
+		hs.Add(&vegeta.Result{Latency: time.Duration(l)})
+		if len(c.Lat) <= 6 || i%(len(c.Lat)/4+1) == 0 || i == len(c.Lat)-1 {
+			b, err := hs.MarshalJSON()
+			if err != nil {
+				return fmt.Errorf("MarshalJSON after %d results: %v", i+1, err)
+			}
+			snaps, copies = append(snaps, b), append(copies, string(b))
+		}
+	}
+	for i := range snaps {
+		if string(snaps[i]) != copies[i] {
+			return fmt.Errorf("JSON rendering %d of %d taken while adding %d results read %s when it was returned and reads %s after later renderings", i+1, len(snaps), len(c.Lat), copies[i], snaps[i])
+		}
+	}
 	// the same histogram inside Metrics / the JSON report ("buckets")
 	m := vegeta.Metrics{Histogram: &vegeta.Histogram{Buckets: bk}}
 	for i, l := range c.Lat {
